@@ -64,7 +64,7 @@ func (t *Ty) lean() string {
 	case "slice":
 		return "(List " + t.Elem.lean() + ")"
 	case "struct":
-		return "(G" + t.Name + " α)"
+		return "(G" + leanStructName(t.Name) + " α)"
 	case "opt":
 		return "(Option " + t.Elem.lean() + ")"
 	case "tuple":
@@ -94,7 +94,7 @@ func (t *Ty) zero() string {
 	case "slice":
 		return "([] : " + t.lean() + ")"
 	case "struct":
-		return "(G" + t.Name + ".zero : G" + t.Name + " α)"
+		return "(G" + leanStructName(t.Name) + ".zero : G" + leanStructName(t.Name) + " α)"
 	case "opt":
 		return "(none : " + t.lean() + ")"
 	case "tuple":
@@ -115,8 +115,16 @@ type Field struct {
 }
 
 type Struct struct {
-	Name   string
-	Fields []Field
+	Name     string
+	LeanName string // Lean structure name without the G prefix (defaults to Name)
+	Fields   []Field
+}
+
+func leanStructName(goName string) string {
+	if st, ok := structs[goName]; ok && st.LeanName != "" {
+		return st.LeanName
+	}
+	return goName
 }
 
 var structs = map[string]*Struct{}
@@ -279,6 +287,7 @@ type Fn struct {
 	Mutates  map[string]bool // lean names of receiver / params written through
 	UsesCap  bool
 	UsesFuel bool
+	Oracles  map[string]bool // sqrtO, nanO, infO: uninterpreted float functions (math.Sqrt, IsNaN, IsInf)
 	Vars     []*Var // all state fields, in declaration order
 	Body     string
 	ResAlias [][2]string // result field F shares its backing array with this path over the receiver / parameters
@@ -299,6 +308,9 @@ func fnKey(recv, name string) string {
 	}
 	return recv + "." + name
 }
+
+var oracleOrder = []string{"sqrtO", "nanO", "infO"}
+var oracleType = map[string]string{"sqrtO": "α → α", "nanO": "α → Bool", "infO": "α → Bool"}
 
 // ---------------------------------------------------------------- compiler state
 
@@ -678,7 +690,7 @@ func (e *ectx) expr0(x ast.Expr, want *Ty) (string, *Ty) {
 			}
 			parts = append(parts, f.Name+" := "+v)
 		}
-		return "({ " + strings.Join(parts, ", ") + " } : G" + t.Name + " α)", t
+		return "({ " + strings.Join(parts, ", ") + " } : G" + leanStructName(t.Name) + " α)", t
 	case *ast.CallExpr:
 		return e.call(x, want)
 	}
@@ -900,6 +912,19 @@ func (e *ectx) call(x *ast.CallExpr, want *Ty) (string, *Ty) {
 			case "math.Abs":
 				s, _ := e.expr(x.Args[0], tFloat)
 				return "(Scalar.abs " + s + ")", tFloat
+			case "math.Sqrt":
+				// `Scalar` has no square root: an uninterpreted function parameter (Float.sqrt at Float)
+				s, _ := e.expr(x.Args[0], tFloat)
+				e.c.fn.Oracles["sqrtO"] = true
+				return "(sqrtO " + s + ")", tFloat
+			case "math.IsNaN":
+				s, _ := e.expr(x.Args[0], tFloat)
+				e.c.fn.Oracles["nanO"] = true
+				return "(nanO " + s + ")", tBool
+			case "math.IsInf":
+				s, _ := e.expr(x.Args[0], tFloat)
+				e.c.fn.Oracles["infO"] = true
+				return "(infO " + s + ")", tBool
 			case "errors.New", "fmt.Errorf":
 				// a fresh error value: identified by its (format) string; the arguments are not modelled
 				lit, ok := x.Args[0].(*ast.BasicLit)
@@ -1004,6 +1029,12 @@ func (e *ectx) callFn(f *Fn, recv ast.Expr, args []ast.Expr) (string, *Ty) {
 	if f.UsesFuel {
 		e.c.fn.UsesFuel = true
 		parts = append(parts, "fuel")
+	}
+	for _, o := range oracleOrder {
+		if f.Oracles[o] {
+			e.c.fn.Oracles[o] = true
+			parts = append(parts, o)
+		}
 	}
 	type back struct {
 		lv   ast.Expr
@@ -2026,7 +2057,7 @@ func optionClosure(fd *ast.FuncDecl) *ast.FuncLit {
 // externs.lean (copied into the generated file): MulVec (goroutines; its sequential specification) and
 // the convergence checker (square root / non-finiteness; the model's squared-delta checker).
 func mkExtern(lean string, recv *Var, params []*Var, res *Ty, mutatesRecv bool) *Fn {
-	f := &Fn{LeanName: lean, Recv: recv, Params: params, Result: res, Mutates: map[string]bool{}}
+	f := &Fn{LeanName: lean, Recv: recv, Params: params, Result: res, Mutates: map[string]bool{}, Oracles: map[string]bool{}}
 	if mutatesRecv {
 		f.Mutates[recv.Lean] = true
 	}
@@ -2189,6 +2220,12 @@ func emit(f *Fn, w *strings.Builder) {
 		extraP += " (fuel : Nat)"
 		extraA += " fuel"
 	}
+	for _, o := range oracleOrder {
+		if f.Oracles[o] {
+			extraP += " (" + o + " : " + oracleType[o] + ")"
+			extraA += " " + o
+		}
+	}
 	rp := strings.NewReplacer("«XP»", extraP, "«XA»", extraA)
 	fmt.Fprintln(w)
 	for _, a := range f.Aux {
@@ -2248,53 +2285,58 @@ func main() {
 	w.WriteString("/-\n  GENERATED by /verif/tools/go2lean from the working tree of /repo — do not edit.\n" +
 		"  Regenerated on every check run; the refinement theorems in Props/Tr*.lean are re-checked against it.\n-/\n" +
 		"import EtVerif.Model.GoSem\nimport EtVerif.Model.Basic\n\nnamespace EtVerif.Gen\nopen EtVerif EtVerif.GoSem\n\nset_option linter.unusedVariables false\n\nvariable {α : Type} [Scalar α]\n\n")
-	// struct declarations, in the listed order (register names first so that types resolve)
-	for _, st := range structTargets {
-		structs[st.Name] = &Struct{Name: st.Name}
-	}
-	for _, st := range structTargets {
+	emitStruct := func(st struct{ Dir, Name string }) {
 		decl := findStruct(get(st.Dir), st.Name)
 		s := structs[st.Name]
 		if decl == nil {
 			fmt.Fprintf(&w, "-- UNSUPPORTED struct %s: not found\n\n", st.Name)
-			continue
+			return
 		}
-		func() {
-			for _, fl := range decl.Fields.List {
-				var t *Ty
-				func() {
-					defer func() {
-						if r := recover(); r != nil {
-							if _, ok := r.(unsupported); !ok {
-								panic(r)
-							}
+		for _, fl := range decl.Fields.List {
+			var t *Ty
+			func() {
+				defer func() {
+					if r := recover(); r != nil {
+						if _, ok := r.(unsupported); !ok {
+							panic(r)
 						}
-					}()
-					t = fieldTypeFromAst(fl.Type)
+					}
 				}()
-				if t == nil || t.K == "ghost" || (t.K == "opt" && t.Elem.K == "ghost") {
-					continue // unsupported / unmodelled field type: dropped (uses become unsupported)
-				}
-				for _, n := range fl.Names {
-					s.Fields = append(s.Fields, Field{n.Name, t})
-				}
+				t = fieldTypeFromAst(fl.Type)
+			}()
+			if t == nil || t.K == "ghost" || (t.K == "opt" && t.Elem.K == "ghost") {
+				continue // unsupported / unmodelled field type: dropped (uses become unsupported)
 			}
-		}()
-		fmt.Fprintf(&w, "/-- %s %s -/\nstructure G%s (α : Type) where\n", st.Dir, st.Name, st.Name)
+			if _, isPtr := fl.Type.(*ast.StarExpr); !isPtr && t.K == "opt" {
+				t = t.Elem
+			}
+			for _, n := range fl.Names {
+				s.Fields = append(s.Fields, Field{n.Name, t})
+			}
+		}
+		fmt.Fprintf(&w, "/-- %s %s -/\nstructure G%s (α : Type) where\n", st.Dir, st.Name, leanStructName(st.Name))
 		var zs []string
 		for _, f := range s.Fields {
 			fmt.Fprintf(&w, "  %s : %s\n", f.Name, f.Ty.lean())
 			zs = append(zs, f.Name+" := "+f.Ty.zero())
 		}
-		fmt.Fprintf(&w, "\ndef G%s.zero : G%s α := { %s }\n\n", st.Name, st.Name, strings.Join(zs, ", "))
+		fmt.Fprintf(&w, "\ndef G%s.zero : G%s α := { %s }\n\n", leanStructName(st.Name), leanStructName(st.Name), strings.Join(zs, ", "))
+	}
+	// struct declarations, in the listed order (register names first so that types resolve)
+	for _, st := range structTargets {
+		structs[st.Name] = &Struct{Name: st.Name}
+	}
+	for _, st := range structTargets {
+		emitStruct(st)
 	}
 	registerExterns()
 	w.WriteString(externsLean + "\n")
-	for _, t := range targets {
-		f := &Fn{T: t, Mutates: map[string]bool{}, Written: map[*Var]bool{}, StoredBack: map[*Var]bool{}}
-		f.LeanName = t.Name
+	suffix := ""
+	doTarget := func(t Target) {
+		f := &Fn{T: t, Mutates: map[string]bool{}, Written: map[*Var]bool{}, StoredBack: map[*Var]bool{}, Oracles: map[string]bool{}}
+		f.LeanName = t.Name + suffix
 		if t.Recv != "" {
-			f.LeanName = t.Recv + "_" + t.Name
+			f.LeanName = t.Recv + "_" + t.Name + suffix
 		}
 		f.Decl = findFunc(get(t.Dir), t.Recv, t.Name)
 		if f.Decl == nil {
@@ -2306,11 +2348,33 @@ func main() {
 		if a, ok := typeAlias[rk]; ok {
 			rk = a // methods of CSRMatrix are found through the embedded CSMatrix the values are rendered as
 		}
-		if _, dup := fns[fnKey(rk, t.Name)]; !dup {
+		if _, dup := fns[fnKey(rk, t.Name)]; !dup || suffix != "" {
 			fns[fnKey(rk, t.Name)] = f
 		}
 		fnOrder = append(fnOrder, f)
 		emit(f, &w)
+	}
+	for _, t := range targets {
+		doTarget(t)
+	}
+	// second universe: the convergence checker and Norm2 FROM THE SOURCE (with math.Sqrt / IsNaN / IsInf as
+	// uninterpreted function parameters), next to the hand-modelled extern that the translated Compute calls:
+	// a refinement theorem relates the two.  Names carry the suffix _src.
+	w.WriteString("/-! ## the convergence checker and Norm2, translated from the source (sqrtO, nanO, infO are parameters) -/\n\n")
+	suffix = "_src"
+	structs["ConvergenceChecker"] = &Struct{Name: "ConvergenceChecker", LeanName: "ConvergenceCheckerSrc"}
+	emitStruct(struct{ Dir, Name string }{"pkg/basic", "ConvergenceChecker"})
+	for _, k := range []string{"NewConvergenceChecker", "ConvergenceChecker.Update", "ConvergenceChecker.Converged", "ConvergenceChecker.Delta"} {
+		delete(fns, k)
+	}
+	for _, t := range []Target{
+		{"pkg/sparse", "Vector", "Norm2"},
+		{"pkg/basic", "", "NewConvergenceChecker"},
+		{"pkg/basic", "ConvergenceChecker", "Update"},
+		{"pkg/basic", "ConvergenceChecker", "Converged"},
+		{"pkg/basic", "ConvergenceChecker", "Delta"},
+	} {
+		doTarget(t)
 	}
 	w.WriteString("end EtVerif.Gen\n")
 	fmt.Print(w.String())
